@@ -240,8 +240,8 @@ def k_rh(ctx):
     ctx.check("vmr2rh-inverts-rh2vmr", _eq(ctx, b, rh))
 
 
-@harness("C09.lapse", expect=lambda c: ["0<gamma<=g/cp", "dry-limit", "decreasing-in-e",
-                                       "premise-holds-for-typhon-constants-up-to-400K"])
+@harness("C09.lapse", cases=lambda tier: ["100-400K", "250-400K"],
+         expect=lambda c: ["0<gamma<=g/cp", "dry-limit", "decreasing-in-e", "premise-holds-for-typhon-constants-up-to-400K"])
 def k_lapse(ctx):
     """moist_lapse_rate for an arbitrary saturation function with 0 <= e < p.
     Decomposition: (lemma) for *all* positive constants g, Lv, Rd, Rv, Cp and all T > 0 with
@@ -255,7 +255,9 @@ def k_lapse(ctx):
     ctx.check("premise-holds-for-typhon-constants-up-to-400K",
               fr["isobaric_mass_heat_capacity"] * fr["gas_constant_water_vapor"] * 400
               <= fr["heat_of_vaporization"] * fr["gas_constant_dry_air"])
-    T = ctx.real("T", lo=100, hi=400)
+    # (the second case repeats the decision on the warm part of the range, where the default saturation
+    #  pressure is far from zero: a counterexample about the caller's e_eq being ignored then replays)
+    T = ctx.real("T", lo=100 if ctx.case == "100-400K" else 250, hi=400)
     p = ctx.real("p", lo=0, lo_open=True)
     e1 = ctx.real("e1", lo=0)
     e2 = ctx.real("e2", lo=0)
@@ -265,7 +267,10 @@ def k_lapse(ctx):
         cs = {n: ctx.real("c_" + n, lo=0, lo_open=True) for n in names}
         ctx.assume(cs["isobaric_mass_heat_capacity"] * cs["gas_constant_water_vapor"] * T
                    <= cs["heat_of_vaporization"] * cs["gas_constant_dry_air"])
-        env = patched(*[(constants, n, Q.of(v)) for n, v in cs.items()])
+        # (the default saturation function is an arbitrary positive function of T here: code that falls
+        #  back to it instead of the caller's e_eq is then seen by the dry-limit obligation)
+        env = patched(*([(constants, n, Q.of(v)) for n, v in cs.items()]
+                        + [(A, "e_eq_water_mk", lambda t: Q.of(uf("e_water", Sym(Q.of(t).sym().t), positive=True)))]))
         Tq, pq = Q.of(T), Q.of(p)
         with env:
             G1 = A.moist_lapse_rate(pq, Tq, e_eq=lambda t: Q.of(e1))
